@@ -300,7 +300,8 @@ class ApplyLoop(LoopSpec):
 class PipelineApplyReset(Contract):
     id = "C13.ProcessingPipeline.apply.reset"
     target = "sigma.processing.pipeline:ProcessingPipeline.apply"
-    props = ("C13", "C15")
+    props = ("C13", "C15", "C09", "C10")
+    cases = ("any rule", "detection rule", "correlation rule")         # the reset does not depend on the kind of rule: a correlation rule starts from scratch like every rule
     assumed = ["items are abstract (item.apply is an uninterpreted call); only the reset of the five per-rule tracking fields and the returned rule are decided here"]
 
     def setup(self, E):
@@ -309,17 +310,22 @@ class PipelineApplyReset(Contract):
         E.loop_invariants[(self.target, 0)] = ApplyLoop()
         E.externals["collections.defaultdict"] = lambda I, args, kwargs: {}
 
-    def args(self, I):
+    def args(self, I, case):
         cinfo = I.E.index.lookup("sigma.processing.pipeline:ProcessingPipeline")
         old = {"applied": [True], "applied_ids": {"old"}, "field_name_applied_ids": {"f": {"old"}}, "field_mappings": SObj(I.E.index.lookup("sigma.processing.tracking:FieldMappingTracking"), {"data": {"a": {"b"}}, "target_fields": {"b": {"a"}}}), "state": {"k": "v"}}
         me = SObj(cinfo, dict(old), lazy=True)
         me.fields["items"] = SList(I.fresh("items", "seq", elem=("opaque", "PItem")))
         me.ghost["pre_ids"] = {id(v) for v in old.values()}
-        rule = I.fresh("rule", "opaque", "Rule")
+        rule = I.fresh("rule", "opaque", "Rule") if case == "any rule" else SObj(I.E.index.lookup("sigma.rule.rule:SigmaRule" if case == "detection rule" else "sigma.correlations:SigmaCorrelationRule"), {}, lazy=True)
+        if isinstance(rule, SObj):
+            rule.ghost["term"] = I.fresh("rule", "opaque", "Rule").t
         return {"self": me, "args": [rule], "rule": rule}
 
     def post(self, I, inp, r):
-        I.ctx.require(isinstance(r, Sym) and r.kind == "opaque" and z3.eq(r.t, inp["rule"].t), "returns the rule it was given")
+        if isinstance(inp["rule"], Sym):
+            I.ctx.require(isinstance(r, Sym) and r.kind == "opaque" and z3.eq(r.t, inp["rule"].t), "returns the rule it was given")
+        else:
+            I.ctx.require(r is inp["rule"], "returns the rule it was given")
 
     def frame_ok(self, I, inp, obj, name):
         return obj is inp["self"] and name in TRACKING_FIELDS
